@@ -331,6 +331,8 @@ struct WorldSt {
     /// calls without a Ready poll_ready since the previous call
     misuse: u64,
     panic_on_misuse: bool,
+    /// observation runs: Some((g, r)) = after g more successful cycles poll_ready answers Err
+    brk: Option<(u32, u32)>,
     attempts: u64,
     current: Option<Arc<Mutex<PipeSt>>>,
     tx: mpsc::UnboundedSender<Result<Pipe, std::io::Error>>,
@@ -351,6 +353,13 @@ impl tower_service::Service<Uri> for ScriptedConnector {
             cx.waker().wake_by_ref();
             return Poll::Pending;
         }
+        if let Some((0, r)) = s.brk {
+            // tower: a service whose poll_ready errs is dead
+            return Poll::Ready(Err(Box::new(std::io::Error::new(
+                std::io::ErrorKind::Other,
+                format!("scripted refuse #0 r{}", r),
+            ))));
+        }
         s.ready = true;
         Poll::Ready(Ok(()))
     }
@@ -367,6 +376,11 @@ impl tower_service::Service<Uri> for ScriptedConnector {
             }
             s.ready = false;
             s.pr_left = s.prl;
+            if let Some((g, r)) = s.brk {
+                if g > 0 {
+                    s.brk = Some((g - 1, r));
+                }
+            }
             s.attempts += 1;
             (s.attempts, s.net, s.lat)
         };
@@ -480,7 +494,8 @@ where
     }
 }
 
-async fn run_case(lazy: bool, lat: u32, prl: u32, mode: Mode, net0: Net, hist: &[Step]) -> Obs {
+#[allow(clippy::too_many_arguments)]
+async fn run_case(lazy: bool, lat: u32, prl: u32, mode: Mode, brk: Option<(u32, u32)>, net0: Net, hist: &[Step]) -> Obs {
     let p0 = PANICS.load(Ordering::SeqCst);
     let (tx, rx) = mpsc::unbounded_channel();
     let world = World(Arc::new(Mutex::new(WorldSt {
@@ -491,6 +506,7 @@ async fn run_case(lazy: bool, lat: u32, prl: u32, mode: Mode, net0: Net, hist: &
         ready: false,
         misuse: 0,
         panic_on_misuse: mode == Mode::Panic,
+        brk,
         attempts: 0,
         current: None,
         tx,
@@ -576,12 +592,15 @@ async fn run_case(lazy: bool, lat: u32, prl: u32, mode: Mode, net0: Net, hist: &
 }
 
 fn run_blocking(lazy: bool, lat: u32, prl: u32, mode: Mode, net0: Net, hist: &[Step]) -> Obs {
+    run_blocking_brk(lazy, lat, prl, mode, None, net0, hist)
+}
+fn run_blocking_brk(lazy: bool, lat: u32, prl: u32, mode: Mode, brk: Option<(u32, u32)>, net0: Net, hist: &[Step]) -> Obs {
     let rt = tokio::runtime::Builder::new_current_thread()
         .enable_time()
         .start_paused(true)
         .build()
         .unwrap();
-    let o = rt.block_on(run_case(lazy, lat, prl, mode, net0, hist));
+    let o = rt.block_on(run_case(lazy, lat, prl, mode, brk, net0, hist));
     drop(rt);
     o
 }
@@ -858,6 +877,346 @@ fn push_case_with(out: &mut Out, kind: &str, lazy: bool, lat: u32, prl: u32, mod
     });
 }
 
+// ------------------------------------------------------------------ observation: connector poll_ready errs
+/// A connector whose poll_ready answers Err after `good` successful cycles (audit2 N-C14-2).
+/// tower's contract: such a service is dead; Reconnect::poll_ready passes the error on and the
+/// Buffer worker fails for good.  NOT covered by the property: the model is exact (tie), the
+/// oracle only demands definite outcomes, no panic, no hang.
+#[allow(clippy::too_many_arguments)]
+fn push_break_case(out: &mut Out, lazy: bool, lat: u32, prl: u32, mode: Mode, good: u32, reason: u32, net0: Net, hist: &[Step]) {
+    let o = run_blocking_brk(lazy, lat, prl, mode, Some((good, reason)), net0, hist);
+    let model = format!(
+        "obs_run_breaking {} {} {} {} {} {} {}",
+        coq_bool(lazy),
+        lat,
+        prl,
+        good,
+        reason,
+        net0.coq(),
+        coq_list(hist, |s| s.coq())
+    );
+    let mut orc = None;
+    if o.panics > 0 {
+        orc = Some(format!("{} panic(s) inside the channel's tasks", o.panics));
+    } else if o.misuse > 0 {
+        orc = Some("connector called without poll_ready".to_string());
+    } else if o.eager == Some(Outcome::Hang) || o.calls.contains(&Outcome::Hang) {
+        orc = Some("a call (or connect) hangs".to_string());
+    } else if o.eager != None && !matches!(o.eager, Some(Outcome::Ok)) && !o.calls.is_empty() {
+        orc = Some("calls on a channel that was never returned".to_string());
+    } else if matches!(o.eager, None | Some(Outcome::Ok)) && o.calls.len() != n_calls(hist) {
+        orc = Some("a call did not produce an outcome".to_string());
+    }
+    out.hist("break_after_good_cycles", good);
+    for c in &o.calls {
+        if let Outcome::Err(code, _, _, m) = c {
+            out.hist("break_outcomes", format!("{} {}", code, if m.starts_with("Service was not ready") { "Service was not ready" } else { "" }));
+        }
+    }
+    out.push(Case {
+        kind: "observe.connector_not_ready".to_string(),
+        input: json!({"lazy": lazy, "lat": lat, "prl": prl, "mode": mode.name(), "break_after": good, "reason": reason,
+                      "net0": net0.json(), "history": hist.iter().map(|s| s.json()).collect::<Vec<_>>(),
+                      "impl": {"eager": o.eager.as_ref().map(|e| e.json()), "calls": o.calls.iter().map(|c| c.json()).collect::<Vec<_>>(), "attempts": o.attempts}}),
+        model,
+        impl_obs: obs_tr(&o),
+        oracle: orc,
+        nontrivial: true,
+    });
+}
+
+// ------------------------------------------------------------------ loopback TCP (audit2 N-C14-1)
+// Real `Endpoint::connect()` / `connect_lazy()` (hyper-util's HttpConnector) against a peer on
+// 127.0.0.1: nothing listening / accepts and closes / accepts, writes an HTTP/1.1 answer and
+// closes / a real tonic server that is shut down and restarted on the same port.  Real clock, real
+// io: quiescent points are real sleeps.
+#[derive(Clone, Copy, Debug, PartialEq, Eq)]
+enum Peer {
+    Refuse,
+    Close,
+    Garbage,
+    Healthy,
+}
+impl Peer {
+    fn name(&self) -> &'static str {
+        match self {
+            Peer::Refuse => "refuse",
+            Peer::Close => "accept_close",
+            Peer::Garbage => "accept_garbage",
+            Peer::Healthy => "healthy",
+        }
+    }
+    fn from_name(s: &str) -> Peer {
+        match s {
+            "refuse" => Peer::Refuse,
+            "accept_close" => Peer::Close,
+            "accept_garbage" => Peer::Garbage,
+            _ => Peer::Healthy,
+        }
+    }
+    /// what the connector would answer, in the model's vocabulary.  Over TCP hyper's write-only
+    /// client handshake cannot fail synchronously, so accept-and-close is an ESTABLISHED connection
+    /// that dies under the first request, exactly like the non-HTTP/2 peer: UpGarbage
+    fn net(&self) -> &'static str {
+        match self {
+            Peer::Refuse => "(Down 2)",
+            Peer::Close | Peer::Garbage => "UpGarbage",
+            Peer::Healthy => "Up",
+        }
+    }
+    fn ev(&self) -> &'static str {
+        match self {
+            Peer::Refuse => "Env (ConnectFails 2)",
+            Peer::Close | Peer::Garbage => "Env ConnectSucceedsGarbage",
+            Peer::Healthy => "Env ConnectSucceeds",
+        }
+    }
+}
+#[derive(Clone, Copy, Debug, PartialEq, Eq)]
+enum TcpStep {
+    /// the peer changes (its listener and every established connection go away first)
+    Peer(Peer),
+    Call,
+}
+struct PeerCtl {
+    port: u16,
+    task: Option<tokio::task::JoinHandle<()>>,
+    shutdown: Option<tokio::sync::oneshot::Sender<()>>,
+}
+async fn bind_port(port: u16) -> tokio::net::TcpListener {
+    for _ in 0..200 {
+        if let Ok(l) = tokio::net::TcpListener::bind(("127.0.0.1", port)).await {
+            return l;
+        }
+        tokio::time::sleep(Duration::from_millis(10)).await;
+    }
+    panic!("cannot bind 127.0.0.1:{}", port);
+}
+impl PeerCtl {
+    async fn set(&mut self, p: Peer) {
+        if let Some(tx) = self.shutdown.take() {
+            let _ = tx.send(()); // graceful shutdown of the tonic server
+            if let Some(mut t) = self.task.take() {
+                if tokio::time::timeout(Duration::from_secs(2), &mut t).await.is_err() {
+                    t.abort();
+                    let _ = t.await;
+                }
+            }
+        } else if let Some(t) = self.task.take() {
+            t.abort();
+            let _ = t.await;
+        }
+        match p {
+            Peer::Refuse => {}
+            Peer::Close | Peer::Garbage => {
+                let l = bind_port(self.port).await;
+                self.task = Some(tokio::spawn(async move {
+                    loop {
+                        if let Ok((mut s, _)) = l.accept().await {
+                            if p == Peer::Garbage {
+                                use tokio::io::AsyncWriteExt;
+                                let _ = s.write_all(b"HTTP/1.1 400 Bad Request\r\nconnection: close\r\n\r\n").await;
+                            }
+                            drop(s);
+                        }
+                    }
+                }));
+            }
+            Peer::Healthy => {
+                let l = bind_port(self.port).await;
+                let (tx, rx) = tokio::sync::oneshot::channel::<()>();
+                let (_rep, health) = tonic_health::server::health_reporter();
+                self.task = Some(tokio::spawn(async move {
+                    let _ = Server::builder()
+                        .add_service(health)
+                        .serve_with_incoming_shutdown(tokio_stream::wrappers::TcpListenerStream::new(l), async {
+                            let _ = rx.await;
+                        })
+                        .await;
+                }));
+                self.shutdown = Some(tx);
+            }
+        }
+    }
+}
+async fn tcp_settle() {
+    tokio::time::sleep(Duration::from_millis(40)).await;
+}
+struct TcpObs {
+    eager: Option<Outcome>,
+    calls: Vec<Outcome>,
+    panics: usize,
+}
+async fn run_tcp(lazy: bool, peer0: Peer, steps: &[TcpStep]) -> TcpObs {
+    let p0 = PANICS.load(Ordering::SeqCst);
+    // pick a free port
+    let port = {
+        let l = tokio::net::TcpListener::bind(("127.0.0.1", 0)).await.unwrap();
+        l.local_addr().unwrap().port()
+    };
+    let mut ctl = PeerCtl { port, task: None, shutdown: None };
+    ctl.set(peer0).await;
+    tcp_settle().await;
+    let ep = Endpoint::from_shared(format!("http://127.0.0.1:{}", port)).unwrap();
+    let mut obs = TcpObs { eager: None, calls: vec![], panics: 0 };
+    let ch = if lazy {
+        Some(ep.connect_lazy())
+    } else {
+        match tokio::time::timeout(Duration::from_secs(5), ep.connect()).await {
+            Err(_) => {
+                obs.eager = Some(Outcome::Hang);
+                None
+            }
+            Ok(Ok(ch)) => {
+                obs.eager = Some(Outcome::Ok);
+                Some(ch)
+            }
+            Ok(Err(e)) => {
+                let st = tonic::Status::from_error(Box::new(e));
+                obs.eager = Some(Outcome::Err(st.code() as i32 as u32, 0, 0, st.message().to_string()));
+                None
+            }
+        }
+    };
+    if let Some(ch) = ch {
+        tcp_settle().await;
+        let mut client = HealthClient::new(ch);
+        for s in steps {
+            match s {
+                TcpStep::Peer(p) => ctl.set(*p).await,
+                TcpStep::Call => {
+                    let req = HealthCheckRequest { service: String::new() };
+                    let o = match tokio::time::timeout(Duration::from_secs(5), client.check(req)).await {
+                        Err(_) => Outcome::Hang,
+                        Ok(Ok(resp)) if resp.get_ref().status == 1 => Outcome::Ok,
+                        Ok(Ok(resp)) => Outcome::Err(999, 0, 0, format!("unexpected response {:?}", resp.get_ref())),
+                        Ok(Err(st)) => Outcome::Err(st.code() as i32 as u32, 0, 0, st.message().to_string()),
+                    };
+                    obs.calls.push(o);
+                }
+            }
+            tcp_settle().await;
+        }
+    }
+    ctl.set(Peer::Refuse).await;
+    obs.panics = PANICS.load(Ordering::SeqCst) - p0;
+    obs
+}
+fn push_tcp_case(out: &mut Out, lazy: bool, peer0: Peer, steps: &[TcpStep]) {
+    let rt = tokio::runtime::Builder::new_current_thread().enable_all().build().unwrap();
+    let o = rt.block_on(run_tcp(lazy, peer0, steps));
+    drop(rt);
+    // oracle: replay of the environment only.  Strict where the property speaks: nothing listening
+    // = a refused connect = UNAVAILABLE (calls and eager connect); a healthy peer = a response, also
+    // right after a restart (recovery without rebuilding the channel).  accept-and-close /
+    // accept-and-garbage over TCP are connections that are ESTABLISHED and die with the request in
+    // flight (the in-flight-drop class, outside the quantifier): definite, CANCELLED or UNAVAILABLE.
+    let mut orc: Option<String> = None;
+    let mut canon: Vec<u32> = vec![];
+    let mut eager_canon: Option<u32> = None;
+    let mut peer = peer0;
+    let mut model_net0 = peer0.net().to_string();
+    if o.panics > 0 {
+        orc = Some(format!("{} panic(s) inside the channel's tasks", o.panics));
+    }
+    let mut built = true;
+    if !lazy {
+        match (&o.eager, peer0) {
+            (Some(Outcome::Ok), Peer::Healthy) | (Some(Outcome::Ok), Peer::Close) | (Some(Outcome::Ok), Peer::Garbage) => eager_canon = Some(0),
+            (Some(Outcome::Err(14, ..)), Peer::Refuse) => {
+                eager_canon = Some(14);
+                built = false;
+            }
+            (Some(Outcome::Err(c, ..)), Peer::Close) | (Some(Outcome::Err(c, ..)), Peer::Garbage) if *c == 14 => {
+                // the kernel delivered the reset before hyper's first write: then it IS a failed
+                // handshake (a connect failure, UNAVAILABLE) - a schedule parameter of the model
+                eager_canon = Some(14);
+                model_net0 = "(UpDead 31)".to_string();
+                built = false;
+            }
+            (e, p) => {
+                orc = orc.or(Some(format!("tcp: eager connect() against peer {} gave {:?}", p.name(), e)));
+                eager_canon = Some(match e {
+                    Some(Outcome::Ok) => 0,
+                    Some(Outcome::Err(c, ..)) => *c,
+                    _ => 1000,
+                });
+                built = matches!(e, Some(Outcome::Ok));
+            }
+        }
+    }
+    let mut i = 0;
+    let mut model_steps: Vec<String> = vec![];
+    for s in steps {
+        match s {
+            TcpStep::Peer(p) => {
+                peer = *p;
+                model_steps.push("Env ConnectionDropped".into());
+                model_steps.push(p.ev().into());
+            }
+            TcpStep::Call => {
+                model_steps.push("Call".into());
+                if !built {
+                    continue;
+                }
+                let out_i = o.calls.get(i).cloned().unwrap_or(Outcome::Hang);
+                i += 1;
+                let c = match (&out_i, peer) {
+                    (Outcome::Ok, Peer::Healthy) => 0,
+                    (Outcome::Err(14, ..), Peer::Refuse) => 14,
+                    (Outcome::Err(1, ..), Peer::Close) | (Outcome::Err(14, ..), Peer::Close) => 1,
+                    (Outcome::Err(1, ..), Peer::Garbage) | (Outcome::Err(14, ..), Peer::Garbage) => 1,
+                    // over TCP the client usually READS the non-HTTP/2 bytes before the request is
+                    // cancelled: h2 raises a connection error (FRAME_SIZE_ERROR) and the call gets
+                    // what C04's HTTP/2 table makes of it, UNKNOWN "h2 protocol error: ..".  Recorded
+                    // (histogram tcp_outcomes), same class: an established connection killed by the
+                    // peer with the request in flight
+                    (Outcome::Err(2, _, _, m), Peer::Garbage) if m.starts_with("h2 protocol error") => 1,
+                    (x, p) => {
+                        let why = match p {
+                            Peer::Healthy => format!("tcp: call {} failed ({:?}) although a healthy server listens: no recovery", i, x),
+                            Peer::Refuse => format!("tcp: call {} = {:?} while nothing listens (a refused connect must be UNAVAILABLE)", i, x),
+                            _ => format!("tcp: call {} on a connection the peer ({}) kills = {:?}, neither CANCELLED nor UNAVAILABLE", i, p.name(), x),
+                        };
+                        orc = orc.or(Some(why));
+                        match x {
+                            Outcome::Ok => 0,
+                            Outcome::Err(c, ..) => *c,
+                            Outcome::Hang => 1000,
+                        }
+                    }
+                };
+                canon.push(c);
+            }
+        }
+    }
+    for c in &o.calls {
+        match c {
+            Outcome::Err(code, _, _, m) => out.hist("tcp_outcomes", format!("{} {}", code, m.chars().take(40).collect::<String>())),
+            Outcome::Ok => out.hist("tcp_outcomes", "ok"),
+            Outcome::Hang => out.hist("tcp_outcomes", "hang"),
+        }
+    }
+    if let Some(Outcome::Err(code, _, _, m)) = &o.eager {
+        out.hist("tcp_eager_errors", format!("{} {}", code, m.chars().take(40).collect::<String>()));
+    }
+    let impl_obs = Tr::L(vec![
+        Tr::opt(eager_canon.map(Tr::n)),
+        Tr::L(canon.iter().map(|c| Tr::n(*c)).collect()),
+    ]);
+    let model = format!("obs_run_codes {} {} {}", coq_bool(lazy), model_net0, coq_list(&model_steps, |s| s.clone()));
+    out.push(Case {
+        kind: "tcp.loopback".to_string(),
+        input: json!({"lazy": lazy, "peer0": peer0.name(),
+                      "steps": steps.iter().map(|s| match s { TcpStep::Peer(p) => json!({"peer": p.name()}), TcpStep::Call => json!("call") }).collect::<Vec<_>>(),
+                      "impl": {"eager": o.eager.as_ref().map(|e| e.json()), "calls": o.calls.iter().map(|c| c.json()).collect::<Vec<_>>()}}),
+        model,
+        impl_obs,
+        oracle: orc,
+        nontrivial: true,
+    });
+}
+
 /// event script -> history with `k` calls at the quiescent point after every event
 fn with_calls(script: &[Step], leading_call: bool, k: impl Fn(usize) -> u32) -> Vec<Step> {
     let mut h = vec![];
@@ -912,6 +1271,36 @@ fn main() {
     if let Some(f) = &a.replay {
         let v: Value = serde_json::from_str(&std::fs::read_to_string(f).unwrap()).unwrap();
         let i = &v["input"];
+        if let Some(p0) = i.get("peer0") {
+            let steps: Vec<TcpStep> = i["steps"]
+                .as_array()
+                .unwrap()
+                .iter()
+                .map(|s| match s.get("peer") {
+                    Some(p) => TcpStep::Peer(Peer::from_name(p.as_str().unwrap())),
+                    None => TcpStep::Call,
+                })
+                .collect();
+            push_tcp_case(&mut out, i["lazy"].as_bool().unwrap(), Peer::from_name(p0.as_str().unwrap()), &steps);
+            out.finish(IMPORTS, "replay of one stored case", json!({}));
+            return;
+        }
+        if let Some(g) = i.get("break_after") {
+            let hist: Vec<Step> = i["history"].as_array().unwrap().iter().map(Step::from_json).collect();
+            push_break_case(
+                &mut out,
+                i["lazy"].as_bool().unwrap(),
+                i["lat"].as_u64().unwrap() as u32,
+                i["prl"].as_u64().unwrap_or(0) as u32,
+                Mode::from_name(i["mode"].as_str().unwrap_or("record")),
+                g.as_u64().unwrap() as u32,
+                i["reason"].as_u64().unwrap_or(0) as u32,
+                Net::from_json(&i["net0"]),
+                &hist,
+            );
+            out.finish(IMPORTS, "replay of one stored case", json!({}));
+            return;
+        }
         let hist: Vec<Step> = i["history"].as_array().unwrap().iter().map(Step::from_json).collect();
         push_case_with(
             &mut out,
@@ -1002,6 +1391,43 @@ fn main() {
             push_case(&mut out, "script.error_kinds", lazy, shape % 3, Net::Dead(shape), &[CALL, fail(shape + 96), CALL, succeed, CALL]);
             if !lazy {
                 push_case(&mut out, "script.error_kinds", false, 0, Net::Up, &[CALL, Drop, Set(Net::Dead(shape)), CALL, Drop, fail(shape), CALL, succeed, CALL]);
+            }
+        }
+    }
+
+    // OBSERVATION (not covered by the property): the connector's poll_ready errs after g cycles
+    for lazy in [true, false] {
+        for good in 0..3u32 {
+            for (mi, mode) in [Mode::Record, Mode::Panic, Mode::Limit].into_iter().enumerate() {
+                let prl = (good + mi as u32) % 3;
+                push_break_case(&mut out, lazy, 1, prl, mode, good, 7 + good, Net::Up, &[CALL, Drop, CALL, CALL, Drop, Calls(2), succeed, CALL]);
+                push_break_case(&mut out, lazy, 0, prl, mode, good, 40 + good, Net::Down(3), &[CALL, CALL, succeed, CALL, Drop, CALL, CALL]);
+            }
+        }
+    }
+    // loopback TCP: real Endpoint::connect()/connect_lazy() against 127.0.0.1 (real clock)
+    {
+        use Peer::*;
+        let c = TcpStep::Call;
+        let p = TcpStep::Peer;
+        for lazy in [true, false] {
+            for peer0 in [Healthy, Refuse, Close, Garbage] {
+                // shut down / restart on the same port
+                push_tcp_case(&mut out, lazy, peer0, &[c, c, p(Healthy), c, p(Refuse), c, c, p(Healthy), c]);
+                push_tcp_case(&mut out, lazy, peer0, &[c, p(Close), c, c, p(Healthy), c]);
+                push_tcp_case(&mut out, lazy, peer0, &[c, p(Garbage), c, p(Refuse), c, p(Healthy), c, p(Healthy), c]);
+            }
+        }
+        if a.thorough {
+            let peers = [Healthy, Refuse, Close, Garbage];
+            for lazy in [true, false] {
+                for peer0 in peers {
+                    for p1 in peers {
+                        for p2 in peers {
+                            push_tcp_case(&mut out, lazy, peer0, &[c, p(p1), c, c, p(p2), c, p(Healthy), c]);
+                        }
+                    }
+                }
             }
         }
     }
@@ -1110,12 +1536,34 @@ fn main() {
 
     out.finish(
         IMPORTS,
-        "script.exhaustive: ALL scripts over {connect fails, connect succeeds, connection dropped} up to length 6 (thorough 8) x lazy/eager, a unary call at the quiescent point after every event (and optionally before the first), initial reachability and connector latency (0..2 Pending polls) varied; concurrent.k: ALL such scripts up to length 4 (thorough 6) with 2..4 calls issued TOGETHER (queued in the tower Buffer) after every event; history.random: random histories with calls and batches of 0..4 at arbitrary positions; script.error_kinds: every shape of the error beneath the ConnectError (the reason selects it: 20 std::io::ErrorKinds, a custom error type, a boxed String, wrapped 0..2 levels deep) for refusals of the connector and for failures of the HTTP/2 handshake on a scripted io, lazy and eager - strictly UNAVAILABLE; all other kinds draw their reasons from the same space; script.handshake / history.random_handshake: the alphabet widened by {transport connects but the peer closes at once (handshake fails; strictly UNAVAILABLE, fixed finding F-C14a), transport connects but the peer is not HTTP/2 (established connection dies under the request, CANCELLED or UNAVAILABLE accepted as for racy drops)}; corpus.racy: calls issued before the client noticed the drop (outside the property's quantifier, behaviour recorded and modelled). The scripted connector enforces the tower Service protocol (its poll_ready answers Pending 0..2 times per cycle; a call without a Ready poll_ready is recorded / panics / runs under a real tower::limit::ConcurrencyLimit, rotating per case; corpus.protocol = drop-and-reconnect sequences in every mode). Real Endpoint::connect_with_connector[_lazy] + Buffer worker + Reconnect + hyper h2 client against a real tonic Server over tokio duplex pipes, paused clock. Non-trivial = at least one call and two steps. Distinct = distinct (kind, model expression).",
+        "script.exhaustive: ALL scripts over {connect fails, connect succeeds, connection dropped} up to length 6 (thorough 8) x lazy/eager, a unary call at the quiescent point after every event (and optionally before the first), initial reachability and connector latency (0..2 Pending polls) varied; concurrent.k: ALL such scripts up to length 4 (thorough 6) with 2..4 calls issued TOGETHER (queued in the tower Buffer) after every event; history.random: random histories with calls and batches of 0..4 at arbitrary positions; tcp.loopback: real Endpoint::connect()/connect_lazy() (hyper-util HttpConnector, real clock) against 127.0.0.1 peers {nothing listening, accepts and closes, accepts and answers HTTP/1.1, real tonic server shut down and restarted on the same port}, codes compared with the model (nothing listening = refusal, strictly UNAVAILABLE; accept-and-close/garbage = established connection dying with the request in flight, CANCELLED or UNAVAILABLE accepted; healthy = response, also after restart); observe.connector_not_ready: connector whose poll_ready errs after g cycles (outside the property: tower's contract makes the Buffer worker fail for good; model exact, oracle only definite/no panic/no hang); script.error_kinds: every shape of the error beneath the ConnectError (the reason selects it: 20 std::io::ErrorKinds, a custom error type, a boxed String, wrapped 0..2 levels deep) for refusals of the connector and for failures of the HTTP/2 handshake on a scripted io, lazy and eager - strictly UNAVAILABLE; all other kinds draw their reasons from the same space; script.handshake / history.random_handshake: the alphabet widened by {transport connects but the peer closes at once (handshake fails; strictly UNAVAILABLE, fixed finding F-C14a), transport connects but the peer is not HTTP/2 (established connection dies under the request, CANCELLED or UNAVAILABLE accepted as for racy drops)}; corpus.racy: calls issued before the client noticed the drop (outside the property's quantifier, behaviour recorded and modelled). The scripted connector enforces the tower Service protocol (its poll_ready answers Pending 0..2 times per cycle; a call without a Ready poll_ready is recorded / panics / runs under a real tower::limit::ConcurrencyLimit, rotating per case; corpus.protocol = drop-and-reconnect sequences in every mode). Real Endpoint::connect_with_connector[_lazy] + Buffer worker + Reconnect + hyper h2 client against a real tonic Server over tokio duplex pipes, paused clock. Non-trivial = at least one call and two steps. Distinct = distinct (kind, model expression).",
         json!({}),
     );
 }
 
 fn explore() {
+    {
+        use Peer::*;
+        let c = TcpStep::Call;
+        let p = TcpStep::Peer;
+        let rt = tokio::runtime::Builder::new_current_thread().enable_all().build().unwrap();
+        for lazy in [true, false] {
+            for peer0 in [Healthy, Refuse, Close, Garbage] {
+                let steps = [c, c, p(Close), c, c, p(Garbage), c, c, p(Refuse), c, p(Healthy), c, p(Healthy), c];
+                let o = rt.block_on(run_tcp(lazy, peer0, &steps));
+                println!("TCP lazy={} peer0={:?}\n   eager={:?}\n   calls={:?} panics={}", lazy, peer0, o.eager, o.calls, o.panics);
+            }
+        }
+        let h = [CALL, Step::Drop, CALL, CALL, Step::Set(Net::Up), CALL];
+        for lazy in [true, false] {
+            for good in 0..2 {
+                let o = run_blocking_brk(lazy, 0, 1, Mode::Record, Some((good, 9)), Net::Up, &h);
+                println!("BREAK lazy={} good={}\n   eager={:?}\n   calls={:?} attempts={} panics={}", lazy, good, o.eager, o.calls, o.attempts, o.panics);
+            }
+        }
+        return;
+    }
+    #[allow(unreachable_code)]
     use Step::*;
     for mode in [Mode::Record, Mode::Panic, Mode::Limit] {
         for prl in [0, 2] {
